@@ -282,7 +282,9 @@ def run(report: Report, tier, seed):
     report.bounded.append(Bounded(function="createConstantBlocks on constants whose literal text or value coincides across literal kinds", contract="every load site pushes the value its own pseudo-op form denotes",
                                   bound=f"18 literals (method / byte / addr / enum / int whose argument texts coincide across kinds, one value in several spellings) and all 13 named integer constants (OnComplete, TxnType), each executed and compared with its independently computed value, x {len(spj)} (order, repetition, version) settings",
                                   cases=len(spr), distinct_nontrivial=len(spr), failures=len(spbad)))
-    bad = [(s, r) for s, r in zip(specs, res) if [m for m in r["mismatches"] if m["kind"] in ("outcome", "asm")] or r["index_problems"]]
+    # (a mismatch that e2e.repaired_optimizer attributes to the recorded slot-optimiser finding occurs with and without assembled
+    #  constants alike: it is not a statement about constant assembly and is reported under C01/C02/C03/C05)
+    bad = [(s, r) for s, r in zip(specs, res) if ([m for m in r["mismatches"] if m["kind"] in ("outcome", "asm")] and not r.get("known_multistore")) or r["index_problems"]]
     mbad = [m for m in many if m["problems"]]
     report.bounded.append(Bounded(function="compileTeal(assembleConstants=True) vs False", contract="same behaviour; every intc/bytec/pushint/pushbytes site pushes the value its pseudo-op form denotes",
                                   bound=f"{n} generated programs (seed {seed}) x versions 3..10", cases=sum(r["ran"] for r in res),
